@@ -206,7 +206,9 @@ class Runner:
                 ser.index = ser.index.astype("int64")
             if self.dom.name == "dts":
                 ser.index = pd.DatetimeIndex(ser.index).as_unit("s")      # a coarser-than-nanosecond index (pandas 2 keeps it)
-            return sc.Stairs.from_values(self.nanv(init), ser, closed=closed)
+            st = sc.Stairs.from_values(self.nanv(init), ser, closed=closed)
+            ser.iloc[0] = ser.iloc[0] + 1      # the caller reuses its buffer: the function built from it must not follow
+            return st
         if route == "maskroute" or (anynan and route == "arith"):
             # defined skeleton (NaN pieces filled with 0) built by layering, undefined pieces masked afterwards
             st = sc.Stairs(initial_value=0.0 if init is None else float(init), closed=closed)
@@ -241,7 +243,11 @@ class Runner:
         elif route == "tuple":
             st.layer(tuple(ks), None, tuple(deltas))
         elif route == "ndarray":
-            st.layer(np.array(ks, dtype="datetime64[s]") if self.dom.name == "dts" else np.array(ks), None, np.array(deltas))
+            ka, da = (np.array(ks, dtype="datetime64[s]") if self.dom.name == "dts" else np.array(ks)), np.array(deltas)
+            st.layer(ka, None, da)
+            da += 1                            # the caller reuses its buffers afterwards
+            if ka.dtype.kind in "if":
+                ka += 1
         elif route == "series":
             idx = list(range(100, 100 + len(ks)))[::-1]
             st.layer(pd.Series(ks, index=idx), None, pd.Series(deltas, index=idx).values)
